@@ -506,6 +506,25 @@ def allCode (rep : Rep) (a : Arr (Cell Bool)) (axis : Axis) : Except Err (Arr (O
     | .error e => .error e
     | .ok () => .ok (a.reduce (allLane rep) (normAxes a.shape.length axis))
 
+/-! ### float infinities on the wire
+
+Float data arrive as integers (value × 8); `+inf`/`-inf` arrive as `±inf` where `inf = maxval` is far beyond
+every finite float (× 8 × 2^20).  Ordering operations treat it correctly as it is.  float64 ARITHMETIC with an
+infinite operand saturates (`inf + x = inf`, `0.5 * (inf + inf) = inf`, `inf / n = inf`), whereas the exact
+integer sum of the model merely becomes huge; `ieeeSat` maps every result at or beyond the threshold
+`inf / 2^20` — unreachable from finite data — back to `±inf`.  (`inf + (-inf)` = NaN has no counterpart; the
+harness does not send both signs to an arithmetic reduction.)  Integer dtypes: `isFloat = false`, identity. -/
+def ieeeSat (isFloat : Bool) (inf : Int) (x : Int) : Int :=
+  if isFloat then
+    if x * 1048576 ≥ inf then inf else if x * 1048576 ≤ -inf then -inf else x
+  else x
+
+/-- the same for an exact fraction `num/den` (mean): `±inf` as `(±inf, 1)` -/
+def ieeeSatFrac (isFloat : Bool) (inf : Int) (p : Int × Nat) : Int × Nat :=
+  if isFloat then
+    if p.1 * 1048576 ≥ inf * p.2 then (inf, 1) else if p.1 * 1048576 ≤ -inf * p.2 then (-inf, 1) else p
+  else p
+
 /-! ### `builtins=True` : `Qube.as_builtin` (qube.py:2214-2236) applied to the result -/
 
 inductive Builtin (β : Type) where
